@@ -57,6 +57,12 @@ def check(ctx, rep):
         check_send(rep, http, send_bodies[0])
     check_next(rep, http)
     check_emission(rep, http)
+    # R16.i: "one call of next.run reaches the shell exactly once" at the bottom of the chain: each endpoint emits exactly one effect,
+    # outside any loop (shared with C14 R14.c; seeded: the endpoint of Client::send asking the shell again after a Timeout, so that
+    # Redirect::new(n) produces more than n probes plus one final request)
+    from rules.props import c14 as _c14, c10 as _c10
+    rep.rule('R16.i', 'each endpoint of the middleware chain emits exactly one effect, outside any loop', floor=2)
+    _c14.check_emission(_c10.RuleProxy(rep, 'R16.i', lambda k: True), http, 'default')
     check_redirect(rep, http)
     rep.assume('dyn Middleware implementations supplied by users are outside every rule')
     rep.assume('slice::split_first returns (first, rest) (std contract)')
